@@ -42,9 +42,9 @@ theorem varValue_quoted (qf : Str → Str) (hqf : ∀ s, NoNl s → NoNl (qf s))
   · intro i hi
     unfold elemQuote
     by_cases hi' : i = andand
-    · simp only [hi', decide_true, if_true]; exact ninjaQuote_eq _ _ andand_noNl
+    · simp only [hi', decide_true, if_true]; exact ninjaQuote_eq _ andand_noNl
     · simp only [hi', decide_false, if_false, Bool.false_eq_true]
-      exact ninjaQuote_eq _ _ (hqf i (h i hi))
+      exact ninjaQuote_eq _ (hqf i (h i hi))
 
 theorem varValue_raw (qf : Str → Str) (name : Str)
     (hn : Generated.rawNames.contains name = true) (elems : List Str) (h : ∀ e ∈ elems, NoNl e) :
@@ -53,7 +53,7 @@ theorem varValue_raw (qf : Str → Str) (name : Str)
   simp only [hn, Bool.not_true, Bool.not_false, Bool.true_or, if_true]
   rw [mapM_ok _ (fun i => ninjaEsc false i)]
   · rfl
-  · intro i hi; exact ninjaQuote_eq _ _ (h i hi)
+  · intro i hi; exact ninjaQuote_eq _ (h i hi)
 
 theorem mapM_error {α β ε} (f : α → Except ε β) (pre post : List α) (bad : α) (e : ε)
     (hpre : ∀ a ∈ pre, ∃ b, f a = .ok b) (hbad : f bad = .error e) :
@@ -76,8 +76,8 @@ theorem varValue_newline (qf : Str → Str) (hqf : ∀ s, NoNl s ↔ NoNl (qf s)
   · intro a ha
     have hp := hpre a ha
     split
-    · exact ⟨_, ninjaQuote_eq _ _ hp⟩
-    · exact ⟨_, ninjaQuote_eq _ _ ((hqf a).1 hp)⟩
+    · exact ⟨_, ninjaQuote_eq _ hp⟩
+    · exact ⟨_, ninjaQuote_eq _ ((hqf a).1 hp)⟩
   · split
     · exact ninjaQuote_newline _ _ hbad
     · exact ninjaQuote_newline _ _ (fun h => hbad ((hqf bad).2 h))
